@@ -26,6 +26,8 @@ def load_event(s):
     e.failure = bool(data['failure'])
     e.notify = bool(data['notify'])
     e.channels = tuple(data['channels'])
+    # channels are used as dictionary keys by the dispatcher
+    hash(e.channels)
 
     for k, v in dict(data['meta']).items():
         if k.startswith('__') or k in META_EXCLUDE:
